@@ -11,13 +11,11 @@ CONSTANTS
   OptOf <- OptTab
   TablePos <- PosTab
   MaxLen = 3
-  Broken = "none"
-  Emit = TRUE
+  Broken = "EditsSharedLimits"
+  Emit = FALSE
   Countries <- C4
   Pop <- PopTab
   RatioGrid <- Grid
-  RatioAssignments <- AllAssignments
+  RatioAssignments <- FewAssignments
 CHECK_DEADLOCK FALSE
 INVARIANT HistoryIndependent
-INVARIANT ResultDependsOnlyOnRun
-INVARIANT SurvivorsUntouched
